@@ -21,7 +21,7 @@ theorem step_ptype (d : Bytes) (l fuel i v : Nat) (m : PPacket) (hv : v < two64)
   have hval := readVar_enc d l (i + 1) v hv hat' (by omega)
   have hil : ¬ i ≥ l := by omega
   rw [unmarshalPacketLoop]
-  simp only [hil, if_false, htag, hval, bind, Except.bind, pure, Except.pure]
+  simp only [hil, if_false, htag, hval, packetField, varintFieldG, bind, Except.bind, pure, Except.pure]
   simp [toInt32, two32]
 
 theorem step_pid (d : Bytes) (l fuel i v : Nat) (m : PPacket) (hv : v < two64)
@@ -34,10 +34,10 @@ theorem step_pid (d : Bytes) (l fuel i v : Nat) (m : PPacket) (hv : v < two64)
   have hval := readVar_enc d l (i + 1) v hv hat' (by omega)
   have hil : ¬ i ≥ l := by omega
   rw [unmarshalPacketLoop]
-  simp only [hil, if_false, htag, hval, bind, Except.bind, pure, Except.pure]
+  simp only [hil, if_false, htag, hval, packetField, varintFieldG, bind, Except.bind, pure, Except.pure]
   simp [toInt32, two32]
 
-theorem step_pdata (d : Bytes) (l fuel i : Nat) (bs : List Nat) (m : PPacket) (hl63 : l < two63)
+theorem step_pdata (d : Bytes) (l fuel i : Nat) (bs : List Nat) (m : PPacket) (hl63 : l < two63) (hld : l ≤ d.size)
     (hat : At d i (34 :: (encVar bs.length ++ bs))) (hl : i + 1 + (encVar bs.length).length + bs.length ≤ l) :
     unmarshalPacketLoop d l (fuel + 1) i m
       = unmarshalPacketLoop d l fuel (i + 1 + (encVar bs.length).length + bs.length) { m with data := some bs } := by
@@ -46,10 +46,10 @@ theorem step_pdata (d : Bytes) (l fuel i : Nat) (bs : List Nat) (m : PPacket) (h
   have hp := encVar_len_pos bs.length
   have htag := readTag d l i 34 (by omega) hd (by omega)
   have hlen := readLen_enc d l (i + 1) bs hl63 hat1 (by omega)
-  have hsl := slice_at hat2
+  have hsl := sliceC_at hat2 (by omega)
   have hil : ¬ i ≥ l := by omega
   rw [unmarshalPacketLoop]
-  simp only [hil, if_false, htag, hlen, bind, Except.bind, pure, Except.pure]
+  simp only [hil, if_false, htag, hlen, packetField, bytesFieldG, bind, Except.bind, pure, Except.pure]
   simp [toInt32, two32, hsl]
 
 theorem At_of_toList (d : Bytes) (bs : List Nat) (h : d.toList = bs) : At d 0 bs := by
@@ -59,7 +59,7 @@ theorem At_of_toList (d : Bytes) (bs : List Nat) (h : d.toList = bs) : At d 0 bs
   rw [← Array.getElem?_toList]
   exact List.getElem?_eq_getElem hj
 
-theorem step_pstat (d : Bytes) (l fuel i : Nat) (st : PStat) (m : PPacket) (hl63 : l < two63) (hwf : st.WF)
+theorem step_pstat (d : Bytes) (l fuel i : Nat) (st : PStat) (m : PPacket) (hl63 : l < two63) (hld : l ≤ d.size) (hwf : st.WF)
     (hm : m.stat = none)
     (hat : At d i (18 :: (encVar (marshalStat st).length ++ marshalStat st)))
     (hl : i + 1 + (encVar (marshalStat st).length).length + (marshalStat st).length ≤ l) :
@@ -71,15 +71,11 @@ theorem step_pstat (d : Bytes) (l fuel i : Nat) (st : PStat) (m : PPacket) (hl63
   have hp := encVar_len_pos (marshalStat st).length
   have htag := readTag d l i 18 (by omega) hd (by omega)
   have hlen := readLen_enc d l (i + 1) (marshalStat st) hl63 hat1 (by omega)
-  have hsl := slice_at hat2
-  unfold slice at hsl
-  have hsz : (d.extract (i + 1 + (encVar (marshalStat st).length).length)
-      (i + 1 + (encVar (marshalStat st).length).length + (marshalStat st).length)).size = (marshalStat st).length := by
-    rw [← Array.length_toList, hsl]
-  have hsub := stat_roundtrip_buf st hwf _ (At_of_toList _ _ hsl) hsz (by rw [hsz]; omega)
+  have hsl := sliceC_at hat2 (by omega)
+  have hsub := stat_roundtrip_buf st hwf (marshalStat st).toArray (At_of_toList _ _ (by simp)) (by simp) (by simp; omega)
   have hil : ¬ i ≥ l := by omega
   rw [unmarshalPacketLoop]
-  simp only [hil, if_false, htag, hlen, bind, Except.bind, pure, Except.pure, hm, Option.getD_none, hsub]
+  simp only [hil, if_false, htag, hlen, hsl, packetField, nestedStatField, bind, Except.bind, pure, Except.pure, hm, Option.getD_none, hsub]
   simp [toInt32, two32]
 
 theorem toInt32_ofInt64 (x : Int) (h1 : -2147483648 ≤ x) (h2 : x < 2147483648) : toInt32 (ofInt64 x) = x := by
@@ -111,15 +107,15 @@ structure PPacket.WF (p : PPacket) : Prop where
 
 theorem toInt32_zero : toInt32 0 = 0 := by decide
 
-def statField (o : Option PStat) : List Nat :=
+def encStatField (o : Option PStat) : List Nat :=
   match o with
   | some s => 18 :: (encVar (marshalStat s).length ++ marshalStat s)
   | none => []
 
 theorem marshalPacket_eq (p : PPacket) :
-    marshalPacket p = encVarField 8 (ofInt64 p.type) ++ (statField p.stat ++ (encVarField 24 p.id ++
+    marshalPacket p = encVarField 8 (ofInt64 p.type) ++ (encStatField p.stat ++ (encVarField 24 p.id ++
       (encBytesField 34 (p.data.getD []) ++ p.unknown))) := by
-  unfold marshalPacket statField
+  unfold marshalPacket encStatField
   cases p.stat <;> simp [List.append_assoc]
 
 section
@@ -144,7 +140,7 @@ theorem pk3 (hdt : pdata ≠ some []) (i : Nat) (hat : At d i (encBytesField 34 
     cases fuel with
     | zero => omega
     | succ fuel =>
-      rw [step_pdata d d.size fuel i bs _ h63 hat (by omega)]
+      rw [step_pdata d d.size fuel i bs _ h63 (Nat.le_refl _) hat (by omega)]
       have : i + 1 + (encVar bs.length).length + bs.length = d.size := by omega
       rw [this]
       exact DecP.done _ _ _ fuel (by omega)
@@ -174,16 +170,16 @@ theorem pk2 (hdt : pdata ≠ some []) (hi : pid < two32) (i : Nat)
       simpa [Nat.mod_eq_of_lt hi] using this
 
 theorem pk1 (hdt : pdata ≠ some []) (hi : pid < two32) (hs : ∀ st, pstat = some st → st.WF) (i : Nat)
-    (hat : At d i (statField pstat ++ (encVarField 24 pid ++ encBytesField 34 (pdata.getD []))))
-    (hl : i + (statField pstat ++ (encVarField 24 pid ++ encBytesField 34 (pdata.getD []))).length = d.size) :
+    (hat : At d i (encStatField pstat ++ (encVarField 24 pid ++ encBytesField 34 (pdata.getD []))))
+    (hl : i + (encStatField pstat ++ (encVarField 24 pid ++ encBytesField 34 (pdata.getD []))).length = d.size) :
     DecP d d.size i { type := ptype }
       (.ok { type := ptype, stat := pstat, id := pid, data := pdata, unknown := [] }) := by
   cases pstat with
   | none =>
-    simp only [statField, List.nil_append] at hat hl
+    simp only [encStatField, List.nil_append] at hat hl
     exact pk2 d h63 ptype none pid pdata hdt hi i hat hl
   | some st =>
-    simp only [statField] at hat hl
+    simp only [encStatField] at hat hl
     obtain ⟨hat1, hat2⟩ := At.append.mp hat
     simp only [List.length_append, List.length_cons] at hl hat2
     intro fuel hf
@@ -191,7 +187,7 @@ theorem pk1 (hdt : pdata ≠ some []) (hi : pid < two32) (hs : ∀ st, pstat = s
     cases fuel with
     | zero => omega
     | succ fuel =>
-      rw [step_pstat d d.size fuel i st _ h63 (hs st rfl) rfl hat1 (by omega)]
+      rw [step_pstat d d.size fuel i st _ h63 (Nat.le_refl _) (hs st rfl) rfl hat1 (by omega)]
       exact pk2 d h63 ptype (some st) pid pdata hdt hi
         (i + 1 + (encVar (marshalStat st).length).length + (marshalStat st).length)
         (by rw [show i + 1 + (encVar (marshalStat st).length).length + (marshalStat st).length
